@@ -34,3 +34,11 @@ def cut(reason):
 
 def cfg(key, default=None):
     return CFG.get(key, default)
+
+
+def pick(seq, i):
+    """seq[i] for a possibly symbolic index i: forks on the index, returns the concrete element"""
+    for j in range(len(seq)):
+        if i == j:
+            return seq[j]
+    raise IndexError(i)
